@@ -521,4 +521,179 @@ theorem cellLoop_sym {s : Setup} (hf : s.flow = Flow.none) {L : Rat} : ∀ (rest
     · simpa [hiBlock, neighbourMix_noflow hf, hc, hnx] using this
 
 
+theorem mixStep_sum {ws : List (W Rat)} (hs : SymFrom 0 ws) {c : Col Rat} (hl : c.cells.length = ws.length) :
+    (mixStep ws c).sum = c.sum := by
+  simp [mixStep, Col.sum, mixGo_sum c.last c.cells ws c.first 0 hl hs]
+
+theorem mixStep_cells_length (ws : List (W Rat)) (c : Col Rat) : (mixStep ws c).cells.length = c.cells.length := by
+  simp [mixStep, mixGo_length]
+
+theorem iter_mixStep_sum {ws : List (W Rat)} (hs : SymFrom 0 ws) : ∀ (k : Nat) (c : Col Rat), c.cells.length = ws.length →
+    (iter (mixStep ws) k c).sum = c.sum ∧ (iter (mixStep ws) k c).cells.length = c.cells.length := by
+  intro k
+  induction k with
+  | zero => intro c _; exact ⟨rfl, rfl⟩
+  | succ k ih =>
+    intro c hl
+    have h1 := mixStep_sum hs hl
+    have h2 := mixStep_cells_length ws c
+    obtain ⟨a, b⟩ := ih (mixStep ws c) (by rw [h2]; exact hl)
+    exact ⟨by rw [iter, a, h1], by rw [iter, b, h2]⟩
+
+
+
+theorem mem_modHead {β : Type} (f : β → β) : ∀ (l : List β) (p : β), p ∈ modHead f l → p ∈ l ∨ ∃ q, l.head? = some q ∧ p = f q := by
+  intro l p hp
+  cases l with
+  | nil => simp [modHead] at hp
+  | cons x xs =>
+    simp only [modHead, List.mem_cons] at hp
+    rcases hp with rfl | hp
+    · exact Or.inr ⟨x, rfl, rfl⟩
+    · exact Or.inl (by simp [hp])
+
+theorem updMax_zero : updMax 0 0 = 0 := by simp [updMax]
+
+section pure
+variable {s : Setup} (hd : ∀ c ∈ s.cells, c.disp = 0) (h0 : diffcHere s = 0)
+include h0
+
+theorem neighbourMix_zero {c nb : Cell} (hc : c.disp = 0) (hn : nb.disp = 0) : neighbourMix s 0 c nb = (0, 0) := by
+  have e : newDav s 0 c nb = 0 := by simp [newDav, davUpd, hc, hn]
+  simp [neighbourMix, e, dispPart, h0]
+
+theorem boundaryMix_zero {c : Cell} (hc : c.disp = 0) : boundaryMix s c = 0 := by
+  simp [boundaryMix, h0, hc]
+
+theorem cellLoop_zero : ∀ (cells : List Cell) (prev : Option Cell), (∀ c ∈ cells, c.disp = 0) → (∀ p, prev = some p → p.disp = 0) →
+    ∀ p ∈ cellLoop s prev cells 0, p = (0, 0) := by
+  intro cells
+  induction cells with
+  | nil => intro prev _ _ p hp; simp [cellLoop] at hp
+  | cons c rest ih =>
+    intro prev hcs hprev p hp
+    have hc := hcs c (by simp)
+    have hhi : hiBlock s 0 c rest = (0, 0) := by
+      cases rest with
+      | nil => rfl
+      | cons nx t => exact neighbourMix_zero h0 hc (hcs nx (by simp))
+    have hlo : loBlock s 0 c prev = (0, 0) := by
+      cases prev with
+      | none => rfl
+      | some pv => exact neighbourMix_zero h0 hc (hprev pv rfl)
+    simp only [cellLoop, hhi, hlo, List.mem_cons] at hp
+    rcases hp with rfl | hp
+    · rfl
+    · exact ih (some c) (fun x h => hcs x (by simp [h])) (fun p' h => by cases h; exact hc) p hp
+
+include hd
+theorem rawMix_zero : (rawMix s).2 = 0 := by
+  show lastMax s (lastFix s (firstFix s (cellLoop s none s.cells 0))) (firstMax s (firstFix s (cellLoop s none s.cells 0)) (loopMax (cellLoop s none s.cells 0))) = 0
+  have hz := cellLoop_zero h0 s.cells none hd (by intro p h; cases h)
+  generalize cellLoop s none s.cells 0 = ps at hz
+  have hl : loopMax ps = 0 := by
+    unfold loopMax
+    induction ps with
+    | nil => rfl
+    | cons q qs ih =>
+      have hq := hz q (by simp)
+      simp only [List.foldl_cons, hq, pairSum, add_zero, updMax_zero]
+      exact ih (fun p hp => hz p (by simp [hp]))
+  have h1 : ∀ p ∈ firstFix s ps, p = (0, 0) := by
+    intro p hp
+    unfold firstFix at hp
+    split at hp
+    · split at hp
+      · rename_i c hc
+        rcases mem_modHead _ ps p hp with h | ⟨q, _, rfl⟩
+        · exact hz p h
+        · have hq : q ∈ ps := List.mem_of_mem_head? ‹_›
+          simp [boundaryMix_zero h0 (hd c (List.mem_of_mem_head? hc)), hz q hq]
+      · exact hz p hp
+    · exact hz p hp
+  have hm1 : firstMax s (firstFix s ps) (loopMax ps) = 0 := by
+    rw [hl]; unfold firstMax
+    split
+    · split
+      · rename_i p hp
+        have := h1 p (List.mem_of_mem_head? hp)
+        simp [this, pairSum, updMax_zero]
+      · rfl
+    · rfl
+  rw [hm1]
+  generalize firstFix s ps = ps1 at h1
+  have h2 : ∀ p ∈ lastFix s ps1, p = (0, 0) := by
+    intro p hp
+    unfold lastFix at hp
+    split at hp
+    · split at hp
+      · rename_i c hc
+        rcases mem_modLast _ ps1 p hp with h | ⟨q, hq, rfl⟩
+        · exact h1 p h
+        · simp [boundaryMix_zero h0 (hd c (List.mem_of_getLast? hc)), h1 q (List.mem_of_getLast? hq)]
+      · exact h1 p hp
+    · exact h1 p hp
+  unfold lastMax
+  split
+  · split
+    · rename_i p hp
+      have := h2 p (List.mem_of_getLast? hp)
+      simp [this, pairSum, updMax_zero]
+    · rfl
+  · rfl
+
+end pure
+
+
+
+/-- with flow and non-zero dispersivities of both cells the stale `dav` is overwritten: the factor does not depend on it -/
+theorem neighbourMix_flow {s : Setup} (hm : s.moving = true) (dav : Rat) {c nb : Cell} (hc : c.disp ≠ 0) (hn : nb.disp ≠ 0) :
+    neighbourMix s dav c nb =
+      ((dispPart true (c.len / c.disp + nb.len / nb.disp) + diffcHere s / (c.len * c.len + c.len * nb.len)) * corrDisp s,
+       c.len / c.disp + nb.len / nb.disp) := by
+  simp [neighbourMix, newDav, davUpd, hm, hc, hn]
+
+theorem neighbourMix_flow_symm {s : Setup} (hm : s.moving = true) (d1 d2 : Rat) {c nb : Cell} (hc : c.disp ≠ 0) (hn : nb.disp ≠ 0)
+    (hl : c.len = nb.len) : (neighbourMix s d1 c nb).1 = (neighbourMix s d2 nb c).1 := by
+  rw [neighbourMix_flow hm d1 hc hn, neighbourMix_flow hm d2 hn hc, hl, add_comm (nb.len / c.disp)]
+
+theorem cellLoop_sym_flow {s : Setup} (hm : s.moving = true) {L : Rat} : ∀ (rest : List Cell) (c : Cell) (prev : Option Cell) (dav : Rat),
+    (c.len = L ∧ c.disp ≠ 0) → (∀ x ∈ rest, x.len = L ∧ x.disp ≠ 0) → (∀ p, prev = some p → p.len = L ∧ p.disp ≠ 0) →
+    SymP (match prev with | none => 0 | some pv => (neighbourMix s 0 pv c).1) (cellLoop s prev (c :: rest) dav) := by
+  intro rest
+  induction rest with
+  | nil =>
+    intro c prev dav hc _ hp
+    cases prev with
+    | none => simp [cellLoop, hiBlock, loBlock, SymP]
+    | some pv =>
+      obtain ⟨hpl, hpd⟩ := hp pv rfl
+      simp only [cellLoop, hiBlock, loBlock, SymP, and_true]
+      exact neighbourMix_flow_symm hm _ _ hc.2 hpd (by rw [hc.1, hpl])
+  | cons nx t ih =>
+    intro c prev dav hc hr hp
+    have hnx := hr nx (by simp)
+    have := ih nx (some c) (loBlock s (hiBlock s dav c (nx :: t)).2 c prev).2 hnx (fun x h => hr x (by simp [h]))
+      (fun p h => by cases h; exact hc)
+    rw [cellLoop]
+    refine ⟨?_, ?_⟩
+    · cases prev with
+      | none => simp [loBlock]
+      | some pv =>
+        obtain ⟨hpl, hpd⟩ := hp pv rfl
+        simp only [loBlock]
+        exact neighbourMix_flow_symm hm _ _ hc.2 hpd (by rw [hc.1, hpl])
+    · simp only [hiBlock]
+      have e : (neighbourMix s dav c nx).1 = (neighbourMix s 0 c nx).1 := by
+        rw [neighbourMix_flow hm dav hc.2 hnx.2, neighbourMix_flow hm 0 hc.2 hnx.2]
+      rw [e]
+      exact this
+
+
+theorem dropLast_sum_add_getLast : ∀ (l : List Rat) (h : l ≠ []), l.dropLast.sum + l.getLast h = l.sum := by
+  intro l h
+  have := List.dropLast_append_getLast h
+  calc l.dropLast.sum + l.getLast h = (l.dropLast ++ [l.getLast h]).sum := by simp
+    _ = l.sum := by rw [this]
+
 end PhreeqcVerif.Transport
